@@ -333,6 +333,27 @@ impl<const N: usize> AsRef<Bytes> for BytesN<N> {
         }
     }
 }
+impl<const N: usize> TryFrom<Bytes> for BytesN<N> {
+    type Error = ConversionError;
+    fn try_from(b: Bytes) -> Result<Self, ConversionError> {
+        BytesN::<N>::try_from(&b)
+    }
+}
+impl<const N: usize> TryFrom<&Bytes> for BytesN<N> {
+    type Error = ConversionError;
+    fn try_from(b: &Bytes) -> Result<Self, ConversionError> {
+        if b.0.len != N {
+            return Err(ConversionError);
+        }
+        let mut a = [0u8; N];
+        let mut i = 0;
+        while i < N && i < BCAP {
+            a[i] = b.0.d[i];
+            i += 1;
+        }
+        Ok(BytesN(a))
+    }
+}
 impl<const N: usize> From<BytesN<N>> for Bytes {
     fn from(b: BytesN<N>) -> Bytes {
         Bytes(b.to_buf())
